@@ -17,10 +17,12 @@ func init() {
 		Run:            runC27,
 		MinObligations: 12,
 		Technique:      "static analysis: nil-contradiction (slots the code itself sets to nil are never used as method receivers without a dominating nil test), guard dominance on the index arithmetic, writer/reader table agreement of the persisted form",
-		LevelText:      "Decides on all paths of package mta: root slots are explicitly set to nil on carry and on recovery, so every method call on a root slot must be dominated by a nil test of that slot (Flush, WitnessFor, Verify, addNode); WitnessFor subtracts a level's capacity 2^(level) from the index only when that level holds a tree; Flush persists one entry per slot and Recover maps empty → nil slot, 32 bytes → hash node, with the length field round-tripped; addNode increments the length exactly once per appended leaf. Breaking any of these makes some length crash or yield a wrong witness.",
+		LevelText:      "Decides on all paths of package mta: root slots are explicitly set to nil on carry and on recovery, so every method call on a root slot must be dominated by a nil test of that slot (Flush, WitnessFor, Verify, addNode); WitnessFor subtracts a level's capacity 2^(level) from the index only when that level holds a tree; Flush persists one entry per slot and Recover maps empty → nil slot, 32 bytes → hash node, with the length field round-tripped; addNode increments the length exactly once per appended leaf; a branch node's lazily computed hash/serialized form is read only after Hash() ran, a branch is stored under that hash after its children flushed successfully and is marked flushed only after the store succeeded. Breaking any of these makes some length crash or yield a wrong witness.",
 		LevelNote:      "Does not decide hash correctness of witnesses or database behaviour.",
 		Explanation:    "C27 rules: nil-roots (K7 over every invoke on an element of Accumulator.roots), skip-consistency (K1 on the index reduction in WitnessFor), persist-pair (K4 Flush vs Recover), length-accounting (K8 in addNode). Structural necessary conditions; nothing is executed.",
 		Mutants: []Mutant{
+			{Name: "flush-unhashed-branch", File: "common/trie/mta/accumulator.go", Old: "\thv := n.Hash()\n\tif err := n.bucket.Set(hv, n.serialized); err != nil {", New: "\tif err := n.bucket.Set(n.hashValue, n.serialized); err != nil {", Desc: "a branch that was never hashed is stored under an empty key"},
+			{Name: "flushed-before-stored", File: "common/trie/mta/accumulator.go", Old: "\thv := n.Hash()\n\tif err := n.bucket.Set(hv, n.serialized); err != nil {\n\t\treturn err\n\t}\n\tn.state = stateFlushed", New: "\thv := n.Hash()\n\tn.state = stateFlushed\n\tif err := n.bucket.Set(hv, n.serialized); err != nil {\n\t\treturn err\n\t}", Desc: "a failed store leaves the node marked flushed: it is never written"},
 			{Name: "F5-flush-nil-root", File: "common/trie/mta/accumulator.go", Old: "\t\tif r == nil {\n\t\t\tcontinue\n\t\t}\n", New: "", Desc: "regression of F5 in Flush"},
 			{Name: "F5-witness-nil-root", File: "common/trie/mta/accumulator.go", Old: "\t\tif a.roots[offset-1] == nil {\n\t\t\toffset -= 1\n\t\t\tcontinue\n\t\t}\n", New: "", Desc: "regression of F5 in WitnessFor"},
 			{Name: "witness-subtract-empty-level", File: "common/trie/mta/accumulator.go", Old: "\t\tif a.roots[offset-1] == nil {\n\t\t\toffset -= 1\n\t\t\tcontinue\n\t\t}\n", New: "\t\tif a.roots[offset-1] == nil {\n\t\t\tidx -= int64(1) << uint(offset-1)\n\t\t\toffset -= 1\n\t\t\tcontinue\n\t\t}\n", Desc: "index reduced by the capacity of an empty level"},
@@ -35,6 +37,7 @@ func init() {
 func runC27(c *Ctx) {
 	const pkg = "common/trie/mta"
 	pf := c.pkgFuncs(pkg)
+	runC27Lazy(c, pf)
 
 	// the code itself stores nil into root slots: confirm the premise of the rule
 	nNil := 0
@@ -228,5 +231,73 @@ func runC27(c *Ctx) {
 			c.check(l.K == 1 && l.T["$0"] == 1, "C27.length-accounting", "carry goes one level up", cs.Pos(), "h+1", "carry to level "+l.String())
 			c.requireAt("C27.nil-roots", "carry only from an occupied slot", cs.Instr, wDiffer("slot != nil", `^\$r\.roots\[\$0\]$`, `^nil$`))
 		}
+	}
+}
+
+// runC27Lazy: branchNode.hashValue/serialized are computed lazily by Hash();
+// every other reader must have called Hash() on that node first; Flush stores
+// the node under its hash, children first, and marks it flushed only after
+// the store succeeded.
+func runC27Lazy(c *Ctx, pf []*ssa.Function) {
+	n := 0
+	for _, fn := range pf {
+		if fn.Signature.Recv() == nil || !strings.HasSuffix(fn.Signature.Recv().Type().String(), "mta.branchNode") || fn.Name() == "Hash" {
+			continue
+		}
+		var hashCalls []callSite
+		for _, cs := range c.calls(fn, byCallee("branchNode).Hash")) {
+			r, _ := callArgs(cs.Common())
+			if render(r) == "$r" {
+				hashCalls = append(hashCalls, cs)
+			}
+		}
+		for _, b := range fn.Blocks {
+			for _, in := range b.Instrs {
+				ld, ok := in.(*ssa.UnOp)
+				if !ok || ld.Op != token.MUL {
+					continue
+				}
+				fa, ok := ld.X.(*ssa.FieldAddr)
+				if !ok || render(fa.X) != "$r" {
+					continue
+				}
+				f := fieldName(fa.X.Type(), fa.Field)
+				if f != "hashValue" && f != "serialized" {
+					continue
+				}
+				n++
+				ok2 := false
+				for _, h := range hashCalls {
+					if dominatesInstr(h.Instr, ld) {
+						ok2 = true
+					}
+				}
+				c.check(ok2, "C27.lazy-hash", fnName(fn)+": "+f+" is read only after Hash() computed it", ld.Pos(), "n.Hash() dominates", "branchNode."+f+" is read without a preceding n.Hash(): for a node that was never hashed it is nil, so the node is stored under an empty key / with empty content and its subtree is lost")
+			}
+		}
+	}
+	c.check(n >= 1, "C27.lazy-hash", "lazy field readers found", token.NoPos, fmt.Sprint(n), "no reader of the lazily computed fields found")
+	if fl := c.mustFn("common/trie/mta", "branchNode", "Flush"); fl != nil {
+		sets := c.calls(fl, byMethod("Set"))
+		kids := c.calls(fl, byMethod("Flush"))
+		marks := fieldStores([]*ssa.Function{fl}, "branchNode", "state")
+		if len(sets) != 1 || len(kids) != 2 || len(marks) != 1 {
+			c.violate("C27.lazy-hash", "branchNode.Flush structure", fl.Pos(), "expected two child flushes, one store, one state mark")
+			return
+		}
+		_, a := callArgs(sets[0].Common())
+		c.check(render(a[0]) == "$r.Hash()" && render(a[1]) == "$r.serialized", "C27.lazy-hash", "a branch is stored under its hash", sets[0].Pos(), "Set(n.Hash(), n.serialized)", "stores "+render(a[1])+" under "+render(a[0]))
+		for _, k := range kids {
+			ev := errValueOf(k.Instr)
+			pathEdgeFilter = nilErrEdgeFilter(ev)
+			tr, reach := pathAvoiding(fl, k.Instr, isInstr(sets[0].Instr), nil)
+			pathEdgeFilter = nil
+			c.check(dominatesInstr(k.Instr, sets[0].Instr) && !reach, "C27.lazy-hash", "children are flushed successfully before their parent is stored", k.Pos(), "child.Flush() == nil → Set", "a parent can be stored although a child failed to flush ("+traceString(tr)+")")
+		}
+		ev := errValueOf(sets[0].Instr)
+		pathEdgeFilter = nilErrEdgeFilter(ev)
+		tr, reach := pathAvoiding(fl, sets[0].Instr, isInstr(marks[0].Store), nil)
+		pathEdgeFilter = nil
+		c.check(dominatesInstr(sets[0].Instr, marks[0].Store) && !reach, "C27.lazy-hash", "a branch is marked flushed only after it was stored", marks[0].Store.Pos(), "Set == nil → stateFlushed", "the node is marked flushed before or despite a failed store: it will never be written ("+traceString(tr)+")")
 	}
 }
